@@ -20,7 +20,7 @@ FILEMAP = {
     "p2p.py": ["C17", "C18", "C19"],
     "config.py": ["C20"], "__main__.py": ["C20"], "__init__.py": ["C20"],
     "integrations.py": ["C15"],
-    "utils.py": ["C01", "C02", "C03", "C05", "C08", "C14"],
+    "utils.py": ["C01", "C02", "C03", "C05", "C06", "C08", "C14"],
     "crypto.py": ["C07", "C05"],
 }
 
